@@ -25,6 +25,9 @@ var c20Plants = []string{
 	"local g%d = function(x, y, x) end", "function M.m%d(self, self) end",
 	// 14 same operands
 	"if %v == %v then end", "if %v.f == %v.f then end", "if %v < %v then end", "local r%d = %v and %v", "local r%d = %v or %v", "if %v.f == %v[\"f\"] then end",
+	"local c%d = %v .. %v", "local c%d = %v + %v", "local c%d = %v * %v", "local c%d = %v - %v", "local c%d = %v / %v", "local c%d = %v // %v", "local c%d = %v %% %v", "local c%d = %v ^ %v",
+	"local c%d = %v & %v", "local c%d = %v | %v", "local c%d = %v ~ %v", "local c%d = %v << %v", "local c%d = %v >> %v", "local c%d = %v <= %v", "local c%d = %v >= %v", "local c%d = %v > %v", "local c%d = %v ~= %v",
+	"local c%d = %v.f .. %v.f", "local c%d = M:m1() == M:m1()", "local c%d = M:m1() == M:m2()",
 	"if f() == f() then end", "if 1 == 1 then end", "if \"s\" == \"s\" then end", "if (%v) == %v then end", "if #%v == #%v then end", "if %v + 1 == %v + 1 then end",
 	// 15 / 16
 	"local o%d = %v or true", "local o%d = true or %v", "local o%d = %v or false", "local a%d = %v and false", "local a%d = false and %v", "local a%d = %v and true",
@@ -32,6 +35,9 @@ var c20Plants = []string{
 	// 19 repeated if condition
 	"if %v then elseif %v then end", "if %v == 1 then elseif %v == 2 then end", "if %v == 1 then elseif %v == 1 then end", "if f(1) then elseif f(1) then end",
 	"if %v then elseif not %v then end", "if %v.a then elseif %v.a then else end",
+	"if M:m1() then elseif M:m2() then end", "if M:m1() then elseif M:m1() then end", "if M.m1() then elseif M.m2() then end", "if M:m1(%v) then elseif M:m1(%v) then end",
+	"if M:m1() then elseif M.m1() then end", "if M.a:m1(1) then elseif M.b:m1(1) then end", "if %v:m1() then elseif %v:m1() then end", "if f(%v) then elseif f(%v, 1) then end",
+	"if %v then elseif vc then elseif %v then end", "if f{1} then elseif f{1} then end", "if f\"s\" then elseif f\"s\" then end",
 	// 20 self assignment
 	"%v = %v", "%v.f = %v.f", "%v[1] = %v[1]", "%v, %v = %v, %v", "%v = (%v)", "%v.f = %v.g",
 	"va, vb = vc, vb", "M.x, va = vb, va", "va, vb = va, vc", "va, vb, vc = va, vb, vc", "va, vb, vc = vb, vb, vc", "va.f, vb = va.f, vc",
@@ -82,6 +88,10 @@ func genC20Program(r *lib.Rng) string {
 						sb.WriteString(v2)
 					}
 					k++
+					j++
+					continue
+				case '%':
+					sb.WriteByte('%')
 					j++
 					continue
 				case 'd':
@@ -163,7 +173,7 @@ func runC20(res *lib.Result, tier string, seed int64, args []string) error {
 			res.Sample(map[string]interface{}{"program": src, "reports": impl})
 		}
 		if strings.Join(impl, " ") != strings.Join(model, " ") {
-			res.AddViolation("impl-vs-model", fmt.Sprintf("pattern diagnostics %v, model predicts %v", impl, model), src, true)
+			res.AddViolation("impl-vs-model", fmt.Sprintf("pattern diagnostics %v, model predicts %v", impl, model), src, false) // the model is proved equal to the documented patterns (Props/C20), so a program on which the server differs is a failing input
 		}
 	}
 	return nil
